@@ -155,6 +155,104 @@ func systematic() []scenario {
 		op{K: "fund", Conf: true, Outs: []fundOut{own(84, 0, 777)}},                  // unrelated block
 		req(reqSpec{API: "send", Acct: 0, Scope: 84, MinConf: 0, Pay: pay(100000)}))
 
+	// minconf above the coinbase maturity: a mature coinbase output still
+	// needs the requested confirmations (100 <= confs < minconf)
+	for _, mc := range []struct {
+		minconf int32
+		confs   int
+	}{{101, 100}, {105, 100}, {105, 104}, {150, 100}, {150, 149}} {
+		cb := []op{fund(true, own(84, 0, 50000)), {K: "cbfund", Outs: []fundOut{own(84, 0, 1000000)}}, mine(mc.confs - 1)}
+		for _, api := range []string{"send", "create", "sendwith", "fundpsbt"} {
+			r := reqSpec{API: api, Acct: 0, Scope: 84, MinConf: mc.minconf, Pay: pay(200000)}
+			if api == "create" || api == "sendwith" {
+				r.Explicit = []int{1}
+			}
+			ops := append(append([]op{}, cb...), req(r))
+			if api == "send" {
+				ops = append(ops, req(reqSpec{API: "create", Acct: 0, MinConf: mc.minconf, Pay: pay(200000), Strat: "random", Dry: true}))
+			}
+			add(fmt.Sprintf("bad_coinbase_%dconf_minconf%d_%s", mc.confs, mc.minconf, api), ops...)
+		}
+	}
+	add("boundary_coinbase_minconf101_reached", op{K: "cbfund", Outs: []fundOut{own(84, 0, 1000000)}}, mine(100),
+		req(reqSpec{API: "send", Acct: 0, Scope: 84, MinConf: 101, Pay: pay(200000)}))
+	add("boundary_coinbase_minconf150_reached", op{K: "cbfund", Outs: []fundOut{own(86, 0, 1000000)}}, mine(149),
+		req(reqSpec{API: "create", Acct: 0, Scope: 86, MinConf: 150, Pay: pay(200000), Explicit: []int{0}}))
+	add("ordinary_output_minconf101", fund(true, own(84, 0, 50000)), mine(50), fund(true, own(84, 0, 1000000)), mine(99),
+		req(reqSpec{API: "send", Acct: 0, Scope: 84, MinConf: 101, Pay: pay(200000)}), // 100 confirmations: must fail
+		mine(1),
+		req(reqSpec{API: "send", Acct: 0, Scope: 84, MinConf: 101, Pay: pay(200000)}))
+
+	// leases and locks on still UNCONFIRMED outputs, then minconf 0
+	for _, how := range []string{"lease", "lock"} {
+		hold := op{K: how, Coin: 1, ID: 5, Dur: 600}
+		setup := []op{fund(true, own(84, 0, 50000)), fund(false, own(84, 0, 1000000)), hold}
+		for _, api := range []string{"send", "create", "sendwith", "fundpsbt"} {
+			r := reqSpec{API: api, Acct: 0, Scope: 84, MinConf: 0, Pay: pay(200000)}
+			if api == "create" || api == "sendwith" {
+				r.Explicit = []int{0, 1}
+			}
+			ops := append(append([]op{}, setup...), req(r))
+			if api == "send" {
+				ops = append(ops, req(reqSpec{API: "create", Acct: 0, MinConf: 0, Pay: pay(200000), Strat: "random", Dry: true}))
+			}
+			add("bad_unconfirmed_"+how+"_"+api, ops...)
+		}
+	}
+	add("unconfirmed_change_leased", fund(true, own(86, 0, 1000000)),
+		req(reqSpec{API: "send", Acct: 0, Scope: 86, MinConf: 1, Pay: pay(300000)}), // change = coin 1, unconfirmed
+		op{K: "lease", Coin: 1, ID: 2, Dur: 600},
+		req(reqSpec{API: "send", Acct: 0, Scope: 86, MinConf: 0, Pay: pay(300000)}), // must fail
+		op{K: "tick", Dt: 600},
+		req(reqSpec{API: "send", Acct: 0, Scope: 86, MinConf: 0, Pay: pay(300000)})) // lease expired: spends it
+	add("unconfirmed_lease_then_confirmed", fund(false, own(84, 0, 1000000)), op{K: "lease", Coin: 0, ID: 2, Dur: 600}, mine(1),
+		req(reqSpec{API: "send", Acct: 0, Scope: 84, MinConf: 1, Pay: pay(300000)})) // still leased: must fail
+
+	// two unconfirmed transactions spend the same wallet output; one of them
+	// is forgotten: the output is still spent by the other
+	x1 := op{K: "spend", Coins: []int{1}, Outs: []fundOut{{Ext: true, Amt: 990000}}}
+	x2 := op{K: "spend", Double: true, Coins: []int{1}, Outs: []fundOut{{Ext: true, Amt: 980000}}}
+	x2b := op{K: "spend", Double: true, Coins: []int{1, 2}, Outs: []fundOut{{Ext: true, Amt: 1000000}, own(84, 0, 30000)}}
+	three := fund(true, own(84, 0, 50000), own(84, 0, 1000000), own(84, 0, 60000))
+	for _, v := range []struct {
+		name string
+		ops  []op
+	}{
+		{"abandon_second", []op{three, x1, x2, {K: "abandon", Tx: 1}}},
+		{"abandon_first", []op{three, x1, x2, {K: "abandon", Tx: 0}}},
+		{"abandon_second_two_inputs", []op{three, x1, x2b, {K: "abandon", Tx: 1}}},
+		{"abandon_first_two_inputs", []op{three, x1, x2b, {K: "abandon", Tx: 0}}},
+	} {
+		for _, api := range []string{"send", "create", "sendwith"} {
+			r := reqSpec{API: api, Acct: 0, Scope: 84, MinConf: 1, Pay: pay(200000)}
+			if api != "send" {
+				r.Explicit = []int{0, 1}
+			}
+			ops := append(append([]op{}, v.ops...), req(r))
+			if api == "send" {
+				ops = append(ops, req(reqSpec{API: "fundpsbt", Acct: 0, MinConf: 0, Pay: pay(200000), Strat: "random"}))
+			}
+			add("double_spend_pair_"+v.name+"_"+api, ops...)
+		}
+	}
+	// the wallet's own transaction loses the race: created, a conflicting
+	// spend arrives, the late broadcast is rejected and the transaction forgotten
+	add("own_tx_conflicts_rejected_later", fund(true, own(84, 0, 1000000)),
+		req(reqSpec{API: "create", Acct: 0, Scope: 84, MinConf: 1, Pay: pay(300000)}), // held
+		op{K: "spend", Coins: []int{0}, Outs: []fundOut{{Ext: true, Amt: 990000}}},
+		op{K: "publish", Tx: 0, Reject: true},
+		req(reqSpec{API: "send", Acct: 0, Scope: 84, MinConf: 0, Pay: pay(300000)}),
+		req(reqSpec{API: "create", Acct: 0, Scope: 84, MinConf: 1, Pay: pay(300000), Explicit: []int{0}}))
+	add("own_tx_conflicts_accepted_then_abandoned", fund(true, own(84, 0, 1000000), own(84, 0, 50000)),
+		req(reqSpec{API: "create", Acct: 0, Scope: 84, MinConf: 1, Pay: pay(300000)}), // held, spends coin 0
+		op{K: "spend", Coins: []int{0}, Outs: []fundOut{{Ext: true, Amt: 990000}}},
+		op{K: "publish", Tx: 0},
+		op{K: "abandon", Tx: 1},
+		req(reqSpec{API: "send", Acct: 0, Scope: 84, MinConf: 0, Pay: pay(300000)}))
+	add("double_spend_pair_one_confirms", three, x1, x2b, op{K: "mine", N: 1, Include: "half"},
+		req(reqSpec{API: "send", Acct: 0, Scope: 84, MinConf: 0, Pay: pay(100000)}),
+		req(reqSpec{API: "create", Acct: 0, Scope: 84, MinConf: 0, Pay: pay(10000), Explicit: []int{1}}))
+
 	// FundPsbt with caller-supplied inputs (S13): ownership and single use
 	psbtIn := func(name string, ins []int, setup ...op) {
 		ops := append([]op{fund(true, own(84, 0, 1000000), own(84, 0, 600000), own(86, 1, 500000))}, setup...)
@@ -176,7 +274,7 @@ func systematic() []scenario {
 
 var (
 	rates    = []int64{1000, 1000, 2000, 10000, 50000, 200000}
-	minconfs = []int32{0, 1, 1, 2, 6}
+	minconfs = []int32{0, 0, 1, 1, 1, 2, 6, 0, 1, 2, 6, 101, 105, 150}
 	extKinds = []string{"p2wpkh", "p2pkh", "p2tr", "p2sh", "p2wsh"}
 )
 
@@ -223,7 +321,12 @@ func randomOps(r *gen.R, n int) func(t *trace, i int) *op {
 			return &o
 		}
 		unspent := coinsWhere(t, func(c *coin) bool { return t.L.spender(c.op, nil) == nil })
-		switch r.Pick(18, 4, 12, 3, 6, 4, 7, 3, 7, 3, 3, 40) {
+		unconfCoins := coinsWhere(t, func(c *coin) bool { return c.from.height < 0 && t.L.spender(c.op, nil) == nil })
+		switch r.Pick(18, 4, 12, 3, 6, 5, 7, 3, 8, 3, 3, 40, 3, 3) {
+		case 12:
+			return &op{K: "abandon", Tx: r.Intn(8)}
+		case 13:
+			return &op{K: "publish", Tx: r.Intn(4), Reject: r.Chance(1, 2)}
 		case 0:
 			outs := []fundOut{randOwn(r)}
 			for r.Chance(1, 3) && len(outs) < 3 {
@@ -249,7 +352,13 @@ func randomOps(r *gen.R, n int) func(t *trace, i int) *op {
 			if young == nil {
 				return &op{K: "mine", N: 1, Include: "all"}
 			}
-			return &op{K: "mine", N: int(99-t.L.confs(young.from)) + r.Range(0, 2), Include: "all"}
+			// 99 / 100 / 101 confirmations, or somewhere between the maturity and
+			// the largest minconf the requests use
+			extra := r.Range(0, 2)
+			if r.Chance(2, 5) {
+				extra = []int{1, 2, 5, 6, 30, 50, 51, 52}[r.Intn(8)]
+			}
+			return &op{K: "mine", N: int(99-t.L.confs(young.from)) + extra, Include: "all"}
 		case 4:
 			d := 1
 			if t.deep {
@@ -257,21 +366,33 @@ func randomOps(r *gen.R, n int) func(t *trace, i int) *op {
 			}
 			return &op{K: "reorg", Depth: d, N: r.Range(0, d+1), Include: []string{"all", "none", "half"}[r.Intn(3)]}
 		case 5:
-			if len(unspent) == 0 {
+			pool, double := unspent, false
+			if r.Chance(1, 3) {
+				// spend again an output that only unconfirmed transactions spend
+				if l := coinsWhere(t, func(c *coin) bool {
+					return t.L.spender(c.op, nil) != nil && !t.L.confirmedSpender(c.op)
+				}); len(l) > 0 {
+					pool, double = l, true
+				}
+			}
+			if len(pool) == 0 {
 				return &op{K: "tick", Dt: 60}
 			}
-			cs := []int{pickFrom(r, unspent)}
-			if r.Chance(1, 3) {
+			cs := []int{pickFrom(r, pool)}
+			if r.Chance(1, 3) && len(unspent) > 0 {
 				cs = append(cs, pickFrom(r, unspent))
 			}
 			outs := []fundOut{{Ext: true, Amt: 700}}
 			if r.Chance(1, 3) {
 				outs = append(outs, randOwn(r))
 			}
-			return &op{K: "spend", Conf: r.Chance(1, 2), Coins: cs, Outs: outs}
+			return &op{K: "spend", Conf: r.Chance(1, 2), Double: double, Coins: cs, Outs: outs}
 		case 6:
 			if len(unspent) == 0 {
 				return &op{K: "tick", Dt: 60}
+			}
+			if len(unconfCoins) > 0 && r.Chance(1, 3) {
+				return &op{K: "lock", Coin: pickFrom(r, unconfCoins)}
 			}
 			return &op{K: "lock", Coin: pickFrom(r, unspent)}
 		case 7:
@@ -283,6 +404,9 @@ func randomOps(r *gen.R, n int) func(t *trace, i int) *op {
 		case 8:
 			if len(unspent) == 0 {
 				return &op{K: "tick", Dt: 60}
+			}
+			if len(unconfCoins) > 0 && r.Chance(1, 2) {
+				return &op{K: "lease", Coin: pickFrom(r, unconfCoins), ID: r.Range(1, 3), Dur: []int{300, 600, 1200}[r.Intn(3)]}
 			}
 			return &op{K: "lease", Coin: pickFrom(r, unspent), ID: r.Range(1, 3), Dur: []int{300, 600, 1200}[r.Intn(3)]}
 		case 9:
